@@ -8,12 +8,35 @@ Drive : real ResourceManager.create -> __init__ -> _init_from_scratch ->
         a second instance through the same factory call, which now initialises
         from the registry (what scheduler / executor components do).
 Oracle: reference model in c18_model.expect(): which hosts are usable, how
-        large a node is, how many nodes are offered / reserved, or that the
-        input is inconsistent and an exception is the only acceptable answer.
+        large a node is, how many nodes are offered / reserved, or that no
+        acceptable list exists and an exception is the only acceptable answer.
+        Clauses (signature prefixes): unknown_host, pseudo_node_offered,
+        duplicate_host, inaccessible_node_used, offered_count, empty_list,
+        longer_than_requested, index_not_unique, reserved_node_offered,
+        agent_nodes_count, service_nodes_count, node_cores / blocked_cores_marks,
+        node_gpus / blocked_gpus_marks, node_lfs, node_mem, info_cores_per_node,
+        info_gpus_per_node, requested_nodes, registry_view_differs:<key>,
+        registry_instance_raised, registry_changed_by_reader,
+        unexpected_exception, no_exception.
+        Signature = clause : RM/code path [: input class] where the input class
+        is one of mixed_width (Slurm bracket with numbers of different printed
+        width), slots!=configured (Torque/CCM node file whose lines per host
+        differ from the configured cores per node), nodefile_smt>1 (PBSPro node
+        file path with SMT > 1).
+Files : c18_model.py (case format, reference model, node file / qstat / host
+        list rendering), c18_env.py (environment construction, fakes, drive),
+        c18_fuzz.py (optional atheris target, thorough tier).
 """
+import os
+import sys
+import json
+import subprocess
+import multiprocessing
+
 from hypothesis import strategies as st
 
 from . import boot                                    # noqa: F401
+from . import runner
 from .runner import CaseResult, Part, exc_sig
 from . import c18_model as M
 from . import c18_env   as H
@@ -42,11 +65,20 @@ ASSUMPTIONS = [
     'multiplied by SMT, $RADICAL_SMT exported',
     'reference expansion of Slurm host list expressions written from the Slurm hostlist format '
     '(no padding unless the range bounds carry leading zeros)',
+    'RMInfo class defaults (shared mutable lists, appended to in place by _filter_nodes) are reset '
+    'before every case: a case stands for one fresh agent process',
+    'thorough tier: vlib/c18_fuzz.py (atheris, 20000 executions, one shard) explores node file line '
+    'orders / exec_vnode chunkings through the same harness and oracle; its findings are replayed '
+    'as ordinary cases (coverage.atheris holds its statistics)',
     'radical.utils.get_version shim (src/radical/pilot/VERSION absent in this tree)']
 NOT_REACHED = [
     'Yarn resource manager (needs a live Hadoop name node)',
     'which of the allocated hosts become agent / service nodes is not demanded',
-    'blank lines / white space inside node files (no batch system writes them)']
+    'blank lines / white space inside node files (no batch system writes them)',
+    'content of RMInfo.backup_list is not demanded (the statement is about the offered list); the '
+    'label note:backup_list_empty_despite_surplus counts the cases where accessible surplus nodes '
+    'exist and backup_list is empty',
+    'the ssh probe itself, qstat, and the launch methods prepared on top of the node list']
 BUDGET = {'quick': 90, 'thorough': 1500}
 
 PREFIXES = ['n', 'nid', 'node-b1-', 'c', 'frontier', 'x3006c0s13b', 'r1i0n',
@@ -263,8 +295,80 @@ def cases(draw):                                                   # noqa: C901
     return case
 
 
+# ------------------------------------------------------------------------------
+# optional atheris target (thorough tier): vlib/c18_fuzz.py run as a subprocess
+# by exactly one shard; its findings come back as ordinary cases.
+FUZZ_RUNS  = 20000
+_FUZZ_OUT  = os.path.join(runner.OUT_DIR, 'C18-atheris')
+_fuzz_lock = []
+
+
+def _fuzz_cases(tier):
+    if tier != 'thorough' or os.environ.get('C18_NO_ATHERIS'):
+        return
+    in_pool = multiprocessing.current_process().name != 'MainProcess'
+    owner   = os.getppid() if in_pool else os.getpid()
+    os.makedirs(_FUZZ_OUT, exist_ok=True)
+    lock = os.path.join(_FUZZ_OUT, 'lock.%d' % owner)
+    try:
+        os.close(os.open(lock, os.O_CREAT | os.O_EXCL | os.O_WRONLY))
+    except FileExistsError:
+        return                          # another shard of this run does it
+    _fuzz_lock.append(lock)
+    stats = os.path.join(_FUZZ_OUT, 'stats.json')
+    work  = boot.fresh_dir('fuzz.')
+    out   = os.path.join(work, 'out.json')
+    note  = None
+    try:
+        seed = int(os.environ.get('VERIF_SEED', '1') or 1)
+        p = subprocess.run([sys.executable, '-m', 'vlib.c18_fuzz', out,
+                            str(FUZZ_RUNS), str(seed)],
+                           cwd=runner.HERE, stdout=subprocess.DEVNULL,
+                           stderr=subprocess.PIPE, text=True, timeout=900)
+        if not os.path.exists(out):
+            note = 'atheris target did not run: %s' % (p.stderr or '')[-300:]
+    except Exception as e:              # noqa
+        note = 'atheris target did not run: %r' % (e,)
+    data = {'execs': 0, 'found': {}, 'note': note}
+    if note is None:
+        with open(out) as f:
+            data = json.load(f)
+    with open(stats, 'w') as f:
+        json.dump({'owner': owner, 'execs': data.get('execs', 0), 'note': note,
+                   'verdicts': data.get('verdicts', {}), 'rms': data.get('rms', {}),
+                   'signatures': {k: v['count'] for k, v in data['found'].items()}},
+                  f, sort_keys=True)
+    # the runner deals enumerated cases round-robin to its shards: repeat each
+    # finding so that this shard keeps exactly one copy
+    copies = runner.N_SHARDS if in_pool else 1
+    for sig in sorted(data['found']):
+        for _ in range(copies):
+            yield data['found'][sig]['case']
+
+
+def evidence_extra(col):
+    extra = {}
+    stats = os.path.join(_FUZZ_OUT, 'stats.json')
+    mine  = os.path.join(_FUZZ_OUT, 'lock.%d' % os.getpid())
+    if os.path.exists(mine) and os.path.exists(stats):
+        with open(stats) as f:
+            st = json.load(f)
+        if st.get('owner') == os.getpid():
+            st.pop('owner')
+            extra['atheris'] = dict(st, target='vlib/c18_fuzz.py: node file lines / exec_vnode '
+                                    'chunking as bytes, same oracle; coverage from '
+                                    'agent.resource_manager only')
+    for l in [mine] + _fuzz_lock:
+        try:
+            os.unlink(l)
+        except OSError:
+            pass
+    return extra
+
+
 def parts(tier):
-    return [Part('allocations', cases(), quick=2500, thorough=6000)]
+    return [Part('atheris_findings', enum=_fuzz_cases),
+            Part('allocations', cases(), quick=2500, thorough=6000)]
 
 
 # ------------------------------------------------------------------------------
